@@ -31,21 +31,21 @@ Section ProgB4.
   Hypothesis Htail : c_oldtail c = false.
   Let HRB1 : 1 <= RB. Proof. lia. Qed.
 
-  Lemma idle_mv me l : idle l -> In me (vb_own l) -> mv_ok me l.
-  Proof. intros (I1 & I2 & I3 & I4 & I5 & I6 & I7 & I8 & I9) H. constructor; auto. Qed.
+  Lemma idle_mv me l : idle l -> In me (vb_own l) -> vb_arr l = Some me -> vb_mine l = Some me -> mv_ok me l.
+  Proof. intros (I1 & I2 & I3 & I4 & I5 & I6 & I7 & I8 & I9 & I10) H Ha Hm. constructor; auto. Qed.
 
   Lemma help_recs_spec t me (Q : option unit -> VB -> Prop) : forall fuel node l,
-    idle l -> In me (vb_own l) -> (forall h, node = Some h -> vb_node l = Some h) ->
-    (forall l', idle l' -> In me (vb_own l') -> Q (Some tt) l') -> (forall l', Q None l') ->
+    idle l -> In me (vb_own l) -> vb_arr l = Some me -> vb_mine l = Some me -> (forall h, node = Some h -> vb_node l = Some h) ->
+    (forall l', idle l' -> In me (vb_own l') -> vb_arr l' = Some me -> vb_mine l' = Some me -> Q (Some tt) l') -> (forall l', Q None l') ->
     dsafeB c t (help_recs c fuel me (S t) node) l Q.
   Proof.
-    induction fuel as [|fuel IH]; intros node l Hi Hme Hn HQ HN; destruct node as [h|]; cbn [help_recs].
+    induction fuel as [|fuel IH]; intros node l Hi Hme Ha Hmi Hn HQ HN; destruct node as [h|]; cbn [help_recs].
     - apply dsafeB_fuel_out. apply HN.
     - apply dsafeB_ret. apply HQ; auto.
     - specialize (Hn h eq_refl). cbn zeta.
-      assert (Hcont : forall l1, idle l1 -> In me (vb_own l1) -> vb_node l1 = Some h ->
+      assert (Hcont : forall l1, idle l1 -> In me (vb_own l1) -> vb_node l1 = Some h -> vb_arr l1 = Some me -> vb_mine l1 = Some me ->
                 dsafeB c t (xbind (loc (fun g => (g, r_next (grec g h)))) (fun nx => help_recs c fuel me (S t) nx)) l1 Q).
-      { intros l1 Hi1 Hme1 Hn1. apply dsafeB_xloc. intros g a tr Hv. unfold viewB in Hv.
+      { intros l1 Hi1 Hme1 Hn1 Ha1 Hmi1. apply dsafeB_xloc. intros g a tr Hv. unfold viewB in Hv.
         exists (setv a t (set_node (bvs a t) (r_next (grec g h)))). split; [eapply frame_bvs; reflexivity|]. split.
         - intros J. apply S_node; auto. intros n En. eapply JB_tl_next; eauto. destruct J as [[_ O2 _ _ _] _ _ _]. apply (O2 t). rewrite Hv. exact Hn1.
         - unfold viewB. cbn [bvs setv fst snd]. rewrite fn_same, Hv. apply IH; auto. }
@@ -56,7 +56,7 @@ Section ProgB4.
       + exists (setv a t (set_own (bvs a t) (h :: vb_own (bvs a t)))). split; [eapply frame_bvs; reflexivity|]. split.
         { intros _ _ J. apply JB_quiet_ev; [apply qev_acc|]. apply S_cas_ok; auto. rewrite Hv. exact Hn. }
         unfold viewB. cbn [bvs setv]. rewrite fn_same, Hv. clear E g a tr Hv.
-        pose proof Hi as (I1 & I2 & I3 & I4 & I5 & I6 & I7 & I8 & I9).
+        pose proof Hi as (I1 & I2 & I3 & I4 & I5 & I6 & I7 & I8 & I9 & I10).
         set (l1 := set_own l (h :: vb_own l)).
         apply dsafeB_xact_q; [apply qB_faa_sync|]. intros _.
         apply dsafeB_xloc. intros g a tr Hv. unfold viewB in Hv.
@@ -69,6 +69,7 @@ Section ProgB4.
         all: try solve [intros r0 ob0 E0; inversion E0; reflexivity].
         all: try solve [intros; apply HN].
         { unfold l1. cbn. now left. }
+        { unfold l1. cbn. rewrite Ha. congruence. }
         apply dsafeB_xact_q; [apply qB_st_free|]. intros _.
         apply dsafeB_xact. intros g a tr Hv. unfold viewB in Hv.
         exists (setv a t (set_own (bvs a t) (remove Nat.eq_dec h (vb_own (bvs a t))))). split; [eapply frame_bvs; reflexivity|]. split.
@@ -78,22 +79,25 @@ Section ProgB4.
         * unfold idle in *. cbn. tauto.
         * destruct (Nat.eq_dec h h) as [_|X]; [|congruence]. apply in_in_remove; auto.
         * exact Hn.
+        * exact Ha.
+        * exact Hmi.
       + exists a. split; [apply frame_refl|]. split; [intros _ _ J; apply JB_quiet_ev; [apply qev_acc|exact J]|].
         unfold viewB. rewrite Hv. apply Hcont; auto.
     - apply dsafeB_ret. apply HQ; auto.
   Qed.
 
   Lemma help_scan_spec t me l (Q : option unit -> VB -> Prop) :
-    idle l -> In me (vb_own l) -> (forall l', idle l' -> In me (vb_own l') -> Q (Some tt) l') -> (forall l', Q None l') ->
+    idle l -> In me (vb_own l) -> vb_arr l = Some me -> vb_mine l = Some me ->
+    (forall l', idle l' -> In me (vb_own l') -> vb_arr l' = Some me -> vb_mine l' = Some me -> Q (Some tt) l') -> (forall l', Q None l') ->
     dsafeB c t (help_scan c me (S t)) l Q.
   Proof.
-    intros Hi Hme HQ HN. unfold help_scan.
+    intros Hi Hme Ha Hmi HQ HN. unfold help_scan.
     apply dsafeB_xact. intros g a tr Hv. unfold viewB in Hv. exists (setv a t (set_node (bvs a t) (tlist g))). split; [eapply frame_bvs; reflexivity|]. split.
     { intros _ _ J. apply S_node; [|apply JB_quiet_ev; [apply qev_acc|exact J]]. intros h E. eapply JB_tl_head; eauto. }
     unfold viewB. cbn [bvs setv fst snd a_ld_tlist]. rewrite fn_same, Hv. generalize (tlist g) as node. clear g a tr Hv. intros node.
     apply dsafeB_xbind. apply help_recs_spec; auto; try (apply idle_set_node; exact Hi).
-    intros l' Hi' Hme'. cbn beta iota. pose proof Hi' as (I1 & I2 & I3 & I4 & I5 & I6 & I7 & I8 & I9).
-    apply scan_spec; auto; try congruence. apply HQ; [unfold idle in *; cbn; tauto|exact Hme'].
+    intros l' Hi' Hme' Ha' Hmi'. cbn beta iota. pose proof Hi' as (I1 & I2 & I3 & I4 & I5 & I6 & I7 & I8 & I9 & I10).
+    apply scan_spec; auto; try congruence. apply HQ; [unfold idle in *; cbn; tauto|exact Hme'|exact Ha'|exact Hmi'].
   Qed.
 
   Lemma trunc_go_spec t r (Q : option unit -> VB -> Prop) : forall fuel p l lb,
@@ -117,44 +121,54 @@ Section ProgB4.
   Qed.
 
   Lemma free_thread_data_spec t l r help det (Q : option unit -> VB -> Prop) :
-    idle l -> In r (vb_own l) -> Forall qevB det -> (forall l', idle l' -> Q (Some tt) l') -> (forall l', Q None l') ->
+    idle l -> In r (vb_own l) -> vb_arr l = Some r -> vb_mine l = Some r -> Forall qevB det -> (forall l', idle l' -> vb_mine l' = None -> Q (Some tt) l') -> (forall l', Q None l') ->
     dsafeB c t (free_thread_data c r (S t) help det) l Q.
   Proof.
-    intros Hi Hr Hdet HQ HN. unfold free_thread_data.
-    pose proof Hi as (I1 & I2 & I3 & I4 & I5 & I6 & I7 & I8 & I9).
+    intros Hi Hr Ha Hmi Hdet HQ HN. unfold free_thread_data.
+    pose proof Hi as (I1 & I2 & I3 & I4 & I5 & I6 & I7 & I8 & I9 & I10).
     apply dsafeB_quiet_seq; [apply qB_hp_clear; exact Hdet|apply HN|]. intros _.
     apply dsafeB_xbind. apply scan_spec; auto; try congruence. cbn beta iota.
     assert (E0 : set_full l None = l) by (destruct l; cbn in *; subst; reflexivity). rewrite E0.
     (* the last store, for any view that is idle up to a leftover private chain *)
-    assert (Hlast : forall l2, In r (vb_own l2) -> idle (set_limbo l2 None) -> dsafeB c t (act (a_st_tid r 0)) l2 Q).
-    { intros l2 Hr2 Hi2. pose proof Hi2 as (J1 & J2 & J3 & J4 & J5 & J6 & J7 & J8 & J9). cbn in J1, J2, J4, J5, J6, J7, J8, J9.
-      apply dsafeB_act_J. intros g a tr Hv. unfold viewB in Hv.
+    assert (Hlast : forall l2, In r (vb_own l2) -> idle (set_limbo l2 None) -> vb_arr l2 = None -> dsafeB c t (act (a_st_tid r 0)) l2 Q).
+    { intros l2 Hr2 Hi2 Ha2. pose proof Hi2 as (J1 & J2 & J3 & J4 & J5 & J6 & J7 & J8 & J9 & J10). cbn in J1, J2, J4, J5, J6, J7, J8, J9, J10.
+      apply dsafeB_act_J. intros g a0 tr Hv0. unfold viewB in Hv0.
+      set (a := setv a0 t (set_s0 (set_mine (bvs a0 t) None) None)).
+      assert (Hv : bvs a t = set_s0 (set_mine l2 None) None) by (unfold a; cbn [bvs setv]; rewrite fn_same, Hv0; reflexivity).
       set (a1 := setv a t (set_own (bvs a t) (remove Nat.eq_dec r (vb_own (bvs a t))))).
       exists (setv a1 t (set_limbo (bvs a1 t) None)). split.
-      { intros t' Ht. unfold viewB. cbn. now rewrite !fn_other by exact Ht. }
+      { intros t' Ht. unfold viewB, a1, a. cbn. now rewrite !fn_other by exact Ht. }
       split.
-      { intros _ _ J. apply JB_quiet_ev; [apply qev_acc|]. apply S_limbo_none. apply S_sttid0; auto; rewrite Hv; auto; congruence. }
-      unfold viewB, a1. cbn [bvs setv fst snd a_st_tid]. rewrite !fn_same, Hv. apply HQ. unfold idle in *. cbn. tauto. }
+      { intros _ _ J0. assert (J : JB c g a tr) by (apply S_mineclr; [rewrite Hv0; exact J10|exact J0]).
+        apply JB_quiet_ev; [apply qev_acc|]. apply S_limbo_none. apply S_sttid0; auto; rewrite Hv; cbn; auto; congruence. }
+      unfold viewB, a1. cbn [bvs setv fst snd a_st_tid]. rewrite !fn_same, Hv. apply HQ; [unfold idle in *; cbn; tauto|reflexivity]. }
     assert (Hmid : forall l1, idle l1 -> In r (vb_own l1) ->
               dsafeB c t (xbind (loc (fun g => (g, rt_empty g r))) (fun e =>
                  xbind (if e then xbind (rt_fini c r) (fun _ => act (a_st_free r true))
                         else xbind (loc (trunc_f c r)) (fun fb => trunc_go c r (c_spin c) fb)) (fun _ => act (a_st_tid r 0)))) l1 Q).
-    { intros l1 Hi1 Hr1. pose proof Hi1 as (J1 & J2 & J3 & J4 & J5 & J6 & J7 & J8 & J9).
-      apply dsafeB_xloc. intros g a tr Hv. unfold viewB in Hv.
+    { intros l1 Hi1 Hr1. pose proof Hi1 as (J1 & J2 & J3 & J4 & J5 & J6 & J7 & J8 & J9 & J10).
+      (* ghost step: the thread forgets that its record has an array *)
+      apply dsafeB_xloc. intros g a0 tr Hv0. unfold viewB in Hv0.
+      set (a := setv a0 t (set_arr (bvs a0 t) None)).
+      assert (Hv : bvs a t = set_arr l1 None) by (unfold a; cbn [bvs setv]; rewrite fn_same, Hv0; reflexivity).
       exists (if rt_empty g r then setv a t (set_move (bvs a t) (Some (r, None))) else a).
-      split; [destruct (rt_empty g r); [eapply frame_bvs; reflexivity|apply frame_refl]|]. split.
-      { intros J. cbn [fst]. destruct (rt_empty g r) eqn:Ee; [|exact J]. apply S_mark; auto; try (rewrite Hv; auto).
-        eapply (rw0_of_empty c g a tr t r); eauto; rewrite Hv; auto. congruence. }
+      split.
+      { destruct (rt_empty g r); intros t' Ht; unfold viewB, a; cbn; now rewrite ?fn_other by exact Ht. }
+      split.
+      { intros J0. assert (J : JB c g a tr) by (apply S_setarr; [discriminate|exact J0]).
+        cbn [fst]. destruct (rt_empty g r) eqn:Ee; [|exact J]. apply S_mark; auto; try (rewrite Hv; auto).
+        eapply (rw0_of_empty c g a tr t r); eauto; rewrite Hv; auto. cbn. congruence. }
       cbn [fst snd]. destruct (rt_empty g r).
-      - unfold viewB. cbn [bvs setv]. rewrite fn_same, Hv. clear g a tr Hv. apply dsafeB_xbind.
-        apply dsafeB_xbind. apply rt_fini_spec; cbn [vb_own vb_limbo vb_blk vb_dead vb_cur vb_full vb_move set_move]; auto.
+      - unfold viewB. cbn [bvs setv]. rewrite fn_same, Hv. clear g a0 a tr Hv0 Hv. apply dsafeB_xbind.
+        apply dsafeB_xbind. apply rt_fini_spec; cbn [vb_own vb_limbo vb_blk vb_dead vb_cur vb_full vb_move vb_arr set_move set_arr]; auto.
+        { discriminate. }
         cbn beta iota.
-        assert (E1 : set_move (set_move l1 (Some (r, None))) None = l1) by (destruct l1; cbn in *; subst; reflexivity). rewrite E1.
+        assert (E1 : set_move (set_move (set_arr l1 None) (Some (r, None))) None = set_arr l1 None) by (destruct l1; cbn in *; subst; reflexivity). rewrite E1.
         apply dsafeB_act_quiet; [apply qB_st_free|]. intros []. cbn beta iota. apply Hlast; auto. unfold idle in *. cbn. tauto.
-      - unfold viewB. rewrite Hv. clear g a tr Hv. apply dsafeB_xbind.
+      - unfold viewB. rewrite Hv. clear g a0 a tr Hv0 Hv. apply dsafeB_xbind.
         apply dsafeB_xloc. intros g a tr Hv. unfold viewB in Hv. exists (aux_trunc a t r g (snd (trunc_f c r g))).
         split; [eapply frame_bvs; reflexivity|]. split.
-        { intros J. apply S_truncate; auto; rewrite Hv; auto; congruence. }
+        { intros J. apply S_truncate; auto; rewrite Hv; cbn; auto; congruence. }
         unfold viewB. cbn [bvs aux_trunc]. rewrite fn_same, Hv. generalize (skipn (trunc_k a r g) (rch a r)) as lb. generalize (snd (trunc_f c r g)) as fb.
         clear g a tr Hv. intros fb lb.
         eapply trunc_go_spec; [reflexivity|exact J2| |intros; apply HN]. intros x. cbn beta iota.
